@@ -2,14 +2,14 @@
   C14 — key material survives registration, transport and extraction.
 
   What is proved here, and at which level:
-  * `accessor_total`: for EVERY `GetResponsePayload` / object / key block value (any subset of the optional
-    parts missing, any format, compression, curve and object type code) every accessor of objects.go and
-    payloads/get.go returns a value or an error, never a Go panic — in the library's own code: this is the
-    theorem the repair /repo 414a481 made true (`old_accessors_can_panic` exhibits the witnesses for the
-    previous code).  The full statement "whatever the standard library does" (`C14_accessor_total_full`) is
-    FALSE of HEAD and reported: `Pkcs8Pem` / `PemPrivateKey` hand a transparent EC private key with an
-    oversized scalar to `x509.MarshalPKCS8PrivateKey`, which panics (`accessor_total_full_false`,
-    `pem_panics_only_in_stdlib`).
+  * `accessor_total` (= `C14_accessor_total_full`, a theorem): for EVERY `GetResponsePayload` / object / key
+    block value (any subset of the optional parts missing, any format, compression, curve and object type
+    code) every accessor of objects.go and payloads/get.go returns a value or an error, never a Go panic.
+    Repairs this rests on, each with the witness of what the previous code did: /repo 414a481 (nil
+    dereferences: `old_accessors_can_panic`), e2e4a08 (range check of a transparent EC scalar: before it
+    `Pkcs8Pem` / `PemPrivateKey` handed an oversized scalar to `x509.MarshalPKCS8PrivateKey`, which panics:
+    `old_pem_can_panic`), d693174 (multi-prime RSA keys in the transparent format: `old_rsa_multiprime_truncated`,
+    `old_register_can_panic`).
   * the lexical transport of big integers for EVERY integer (any sign, any size) in the three encodings
     (`ttlv_big_roundtrip`, `xml_big_roundtrip`, `json_big_roundtrip` — both sides of ±2^52) and of byte
     strings (`hex_roundtrip`), from the Go loops `bigIntToBytes` / `bytesToBigInt`.
@@ -31,68 +31,62 @@ open Kmip Kmip.Key
 
 /-! ## 1. Accessor totality -/
 
-/-- the full statement: no accessor panics, whatever the standard library does. -/
+/-- the full statement: no accessor panics, for every standard library satisfying the laws. -/
 def C14_accessor_total_full : Prop :=
-  ∀ (C : CryptoOps) (a : Accessor) (r : GetResp), ∀ msg, run C a r ≠ .panic msg
+  ∀ (C : Crypto) (a : Accessor) (r : GetResp), ∀ msg, run C.toCryptoOps a r ≠ .panic msg
 
 /-- 1. no accessor panics: every accessor, every response payload (object type code and object
-    independent, object possibly nil), every key block content — given that the standard library does not.
-    The only standard library function of the accessors that is not assumed total is
-    `x509.MarshalPKCS8PrivateKey` (see `accessor_total_full_false`); it is reached by `Pkcs8Pem` /
-    `PemPrivateKey` only. -/
-theorem accessor_total (C : CryptoOps) (hm : ∀ k, (C.marshalPKCS8 k).NoPanic) (a : Accessor) (r : GetResp) :
-    ∀ msg, run C a r ≠ .panic msg :=
-  run_noPanic C (fun _ => hm) r
+    independent, object possibly nil), every key block content.  The only standard library function of
+    the accessors that is not total is `x509.MarshalPKCS8PrivateKey`; the laws say where it does not
+    panic (RSA keys, keys returned by the parsers, an ecdsa key built from a scalar in `[1, n-1]`), and
+    the range check of `PrivateKey.ECDSA` makes these the only keys `Pkcs8Pem` can hand it. -/
+theorem accessor_total (C : Crypto) (a : Accessor) (r : GetResp) :
+    ∀ msg, run C.toCryptoOps a r ≠ .panic msg :=
+  run_noPanic C a r
 
-/-- 1'. unconditionally for every accessor except the PKCS#8 PEM helpers. -/
+theorem accessor_total_full : C14_accessor_total_full := accessor_total
+
+/-- 1'. without any law about the standard library: every accessor except the PKCS#8 PEM helpers. -/
 theorem accessor_total_except_pem (C : CryptoOps) (a : Accessor) (r : GetResp)
     (ha : a ≠ .privPem ∧ a ≠ .getPemPriv) : ∀ msg, run C a r ≠ .panic msg :=
-  run_noPanic C (fun h => by rcases h with h | h <;> simp [h] at ha) r
+  run_noPanic_ops C a ha r
 
-/-- 1''. and the PEM helper panics exactly when `MarshalPKCS8PrivateKey` panics on the key the accessor
-    built: there is no panic in the library's own code. -/
+/-- 1''. and the PEM helper can panic only inside `MarshalPKCS8PrivateKey`, on the key the accessor built:
+    there is no panic in the library's own code. -/
 theorem pem_panics_only_in_stdlib (C : CryptoOps) (kb : KeyBlockV) (m : String) :
     privPkcs8Pem C kb = .panic m ↔ ∃ k, privCrypto C kb = .ok k ∧ C.marshalPKCS8 k = .panic m :=
   privPkcs8Pem_panic_iff C kb m
 
-/-- a decodable object on which HEAD panics: a transparent EC private key whose scalar `D` does not fit
-    the byte size of the curve order (here 2^256 on P-256).  `PrivateKey.ECDSA` accepts any `D`;
-    `Pkcs8Pem` hands the key to `x509.MarshalPKCS8PrivateKey`, whose `D.FillBytes` panics — the toy
-    library reproduces that behaviour of the real one (engine `key`, oracle `accessor-no-panic`). -/
+/-- a decodable object: a transparent EC private key whose scalar `D` does not fit the byte size of the
+    curve order (here 2^256 on P-256). -/
 def oversizedScalar : KeyBlockV :=
   { format := fTransparentECPrivateKey,
     keyValue := some { plain := some { material := { ecPriv := some { curve := 7, d := 2 ^ 256 } } } } }
 
-theorem head_pem_can_panic : ∃ m, privPkcs8Pem Toy.ops oversizedScalar = .panic m := by
-  refine ⟨"math/big: buffer too small to fit value", ?_⟩
-  rw [privPkcs8Pem_panic_iff]
-  refine ⟨.ecdsa { crv := 1, d := 2 ^ 256 }, ?_, ?_⟩
-  · rfl
-  · rfl
-
-/-- the full statement is false: REPORTED (finding `key:accessor-panic:priv.pem`). -/
-theorem accessor_total_full_false : ¬ C14_accessor_total_full := by
-  intro h
-  obtain ⟨m, hm⟩ := head_pem_can_panic
-  have := h Toy.ops .privPem (respOf (.privateKey oversizedScalar)) m
-  apply this
-  simp only [run, respOf]
-  rw [hm]
-  rfl
+/-- 2a. before e2e4a08 `PrivateKey.ECDSA` accepted any `D` and `Pkcs8Pem` panicked inside
+    `x509.MarshalPKCS8PrivateKey` (`D.FillBytes`; the toy library reproduces that behaviour of the real
+    one); HEAD answers with an error on the same object. -/
+theorem old_pem_can_panic :
+    (∃ m, privPkcs8PemNoRange Toy.ops oversizedScalar = .panic m) ∧
+    (∃ e, privPkcs8Pem Toy.ops oversizedScalar = .err e) ∧
+    (∃ e, privECDSA Toy.ops oversizedScalar = .err e) :=
+  ⟨⟨_, rfl⟩, ⟨_, rfl⟩, ⟨_, rfl⟩⟩
 
 /-- 1a. the key block accessors, for every key block. -/
 theorem keyblock_accessors_total (kb : KeyBlockV) :
     (getMaterial kb).NoPanic ∧ (getBytes kb).NoPanic ∧ (getAttributes kb).NoPanic :=
   ⟨getMaterial_noPanic kb, getBytes_noPanic kb, getAttributes_noPanic kb⟩
 
-/-- 1b. the object accessors, for every key block and every standard library. -/
-theorem object_accessors_total (C : CryptoOps) (kb : KeyBlockV) :
+/-- 1b. the object accessors, for every key block and every standard library (the last one under the laws). -/
+theorem object_accessors_total (C : Crypto) (kb : KeyBlockV) :
     (secretData kb).NoPanic ∧ (symKeyMaterial kb).NoPanic ∧
-    (pubRSA C kb).NoPanic ∧ (pubECDSA C kb).NoPanic ∧ (pubCrypto C kb).NoPanic ∧ (pubPkixPem C kb).NoPanic ∧
-    (privRSA C kb).NoPanic ∧ (privECDSA C kb).NoPanic ∧ (privCrypto C kb).NoPanic :=
-  ⟨secretData_noPanic kb, symKeyMaterial_noPanic kb, pubRSA_noPanic C kb, pubECDSA_noPanic C kb,
-    pubCrypto_noPanic C kb, pubPkixPem_noPanic C kb, privRSA_noPanic C kb, privECDSA_noPanic C kb,
-    privCrypto_noPanic C kb⟩
+    (pubRSA C.toCryptoOps kb).NoPanic ∧ (pubECDSA C.toCryptoOps kb).NoPanic ∧
+    (pubCrypto C.toCryptoOps kb).NoPanic ∧ (pubPkixPem C.toCryptoOps kb).NoPanic ∧
+    (privRSA C.toCryptoOps kb).NoPanic ∧ (privECDSA C.toCryptoOps kb).NoPanic ∧
+    (privCrypto C.toCryptoOps kb).NoPanic ∧ (privPkcs8Pem C.toCryptoOps kb).NoPanic :=
+  ⟨secretData_noPanic kb, symKeyMaterial_noPanic kb, pubRSA_noPanic _ kb, pubECDSA_noPanic _ kb,
+    pubCrypto_noPanic _ kb, pubPkixPem_noPanic _ kb, privRSA_noPanic _ kb, privECDSA_noPanic _ kb,
+    privCrypto_noPanic _ kb, privPkcs8Pem_noPanic C kb⟩
 
 /-- 1c. a metadata-only object (no KeyValue) and a wrapped one give errors. -/
 theorem missing_material_is_error (C : CryptoOps) (f c : Nat) (w : Bytes) :
@@ -221,14 +215,17 @@ theorem selectors_honour_request :
     symmetricFormat 0 = kfRAW ∧ symmetricFormat kfRAW = kfRAW ∧ symmetricFormat kfTransparent = kfTransparent := by
   decide
 
-/-- 10b. the register builders never panic in their own code, except `key.Primes[1]` on an RSA private
-    key that has fewer than two primes (transparent format); otherwise a panic is one of
-    `x509.MarshalPKCS8PrivateKey`. -/
+/-- 10b. the register builders never panic in their own code: a panic is one of
+    `x509.MarshalPKCS8PrivateKey` on the caller's own key. -/
 theorem register_panic_only (C : CryptoOps) (kf : Nat) (ver : Nat × Nat) (key : AnyKey C) (m : String)
-    (h : register C kf ver key = .panic m) :
-    (∃ k, key = .rsaPriv k ∧ (C.rsaPrivParts k).primes.length < 2 ∧ rsaPrivFormat kf = kfTransparent) ∨
-    (∃ pk, C.marshalPKCS8 pk = .panic m) :=
+    (h : register C kf ver key = .panic m) : ∃ pk, C.marshalPKCS8 pk = .panic m :=
   Key.register_panic_only C kf ver key m h
+
+/-- 10c. an RSA private key that has not exactly two primes is refused in the transparent format (d693174). -/
+theorem rsa_multiprime_refused (C : CryptoOps) (kf : Nat) (k : C.RsaPriv)
+    (hlen : bitLen (C.rsaPrivParts k).n ≤ maxInt32) (hf : rsaPrivFormat kf = kfTransparent)
+    (hp : (C.rsaPrivParts k).primes.length ≠ 2) : ∃ e, registerRsaPriv C kf k = .err e :=
+  registerRsaPriv_refuses C kf k hlen hf hp
 
 /-- 11. the version switch: `TransparentEC*` from 1.3 on, `TransparentECDSA*` before. -/
 theorem version_switch (major minor : Nat) :
@@ -271,10 +268,10 @@ theorem ec_pub_transparent_repr (C : CryptoOps) (kf : Nat) (ver : Nat × Nat) (k
 
 /-! ## 4. Register, transport, extract -/
 
-/-- the keys for which the property can hold: the transparent RSA private key format of KMIP has
-    exactly two primes (`P`, `Q`), so does the key. -/
+/-- the keys for which the property can hold: an ECDSA private key has its scalar in `[1, n-1]` (anything
+    else is not a key of the curve; the accessor refuses it in the transparent format). -/
 def Valid {C : CryptoOps} : AnyKey C → Prop
-  | .rsaPriv k => ∃ p q, (C.rsaPrivParts k).primes = [p, q]
+  | .ecPriv k => 0 < C.ecPrivD k ∧ C.ecPrivD k < C.curveOrder (C.ecPrivCurve k)
   | _ => True
 
 /-- 12. extraction from the registered object gives back the key: every kind, every format selector,
@@ -283,18 +280,16 @@ theorem extract_register (C : Crypto) (kf : Nat) (ver : Nat × Nat) (key : AnyKe
     (hv : Valid key) (o : Obj) (h : register C.toCryptoOps kf ver key = .ok o) :
     extract C.toCryptoOps key (respOf o) = .ok key.content := by
   cases key with
-  | rsaPriv k =>
-    obtain ⟨p, q, hp⟩ := hv
-    simp [extract, AnyKey.content, rsaPriv_extract C kf k o p q hp h]
+  | rsaPriv k => simp [extract, AnyKey.content, rsaPriv_extract C kf k o h]
   | rsaPub k => simp [extract, AnyKey.content, rsaPub_extract C kf k o h]
-  | ecPriv k => simp [extract, AnyKey.content, ecPriv_extract C kf ver k o h]
+  | ecPriv k => simp [extract, AnyKey.content, ecPriv_extract C kf ver k o (fun _ => hv) h]
   | ecPub k => simp [extract, AnyKey.content, ecPub_extract C kf ver k o h]
   | sym alg v => simp [extract, AnyKey.content, sym_extract kf alg v o h]
   | secret kind v => simp [extract, AnyKey.content, secret_extract kind v o h]
 
-/-- 13. C14: for every key of each kind, every format selector, every version, each of the three
-    encodings: whenever the builder accepts the key, the key extracted from the transported object is the
-    original. -/
+/-- 13. C14: for every key of each kind (RSA keys with any number of primes included), every format
+    selector, every version, each of the three encodings: whenever the builder accepts the key, the key
+    extracted from the transported object is the original. -/
 theorem key_roundtrip (C : Crypto) (kf : Nat) (ver : Nat × Nat) (enc : Enc) (key : AnyKey C.toCryptoOps)
     (hv : Valid key) (o : Obj) (h : register C.toCryptoOps kf ver key = .ok o) :
     roundtrip C.toCryptoOps kf ver enc key = .ok key.content := by
@@ -303,25 +298,41 @@ theorem key_roundtrip (C : Crypto) (kf : Nat) (ver : Nat × Nat) (enc : Enc) (ke
   simp only [transportObj_ok]
   exact extract_register C kf ver key hv o h
 
-/-- 13a. in all cases: the round trip gives the key, or the builder refused it with an error (marshal
-    error of the standard library, unsupported curve, length overflow), or the standard library panicked
-    while marshalling the caller's own key — never another key, never an error of transport or extraction. -/
+/-- 13a. in all cases, without any hypothesis on the key: the round trip gives the key, or the builder
+    refused it with an error (marshal error of the standard library, unsupported curve, length overflow,
+    an RSA key without exactly two primes in the transparent format), or the standard library panicked
+    while marshalling the caller's own key, or the key is an ECDSA key whose scalar is out of range and
+    the accessor refused it — never another key. -/
 theorem key_roundtrip_or_refused (C : Crypto) (kf : Nat) (ver : Nat × Nat) (enc : Enc)
-    (key : AnyKey C.toCryptoOps) (hv : Valid key) :
+    (key : AnyKey C.toCryptoOps) :
     roundtrip C.toCryptoOps kf ver enc key = .ok key.content ∨
     (∃ e, register C.toCryptoOps kf ver key = .err e ∧ roundtrip C.toCryptoOps kf ver enc key = .err e) ∨
-    (∃ pk m, C.marshalPKCS8 pk = .panic m) := by
+    (∃ pk m, C.marshalPKCS8 pk = .panic m) ∨
+    (¬ Valid key ∧ ∃ e, roundtrip C.toCryptoOps kf ver enc key = .err e) := by
   cases h : register C.toCryptoOps kf ver key with
-  | ok o => exact Or.inl (key_roundtrip C kf ver enc key hv o h)
   | err e => exact Or.inr (Or.inl ⟨e, rfl, by simp [roundtrip, h]⟩)
   | panic m =>
-    rcases Key.register_panic_only _ kf ver key m h with ⟨k, hk, hlen, _⟩ | ⟨pk, hpk⟩
-    · exfalso
-      subst hk
-      obtain ⟨p, q, hp⟩ := hv
-      rw [hp] at hlen
-      simp at hlen
-    · exact Or.inr (Or.inr ⟨pk, m, hpk⟩)
+    obtain ⟨pk, hpk⟩ := Key.register_panic_only _ kf ver key m h
+    exact Or.inr (Or.inr (Or.inl ⟨pk, m, hpk⟩))
+  | ok o =>
+    by_cases hv : Valid key
+    · exact Or.inl (key_roundtrip C kf ver enc key hv o h)
+    · cases key with
+      | ecPriv k =>
+        by_cases hf : ecdsaPrivFormat kf = kfTransparent
+        · refine Or.inr (Or.inr (Or.inr ⟨hv, .range, ?_⟩))
+          have := ecPriv_extract_invalid C kf ver k o hf hv h
+          simp only [register] at h
+          simp [roundtrip, register, h, transportObj_ok, extract, this]
+        · left
+          have := ecPriv_extract C kf ver k o (fun hc => absurd hc hf) h
+          simp only [register] at h
+          simp [roundtrip, register, h, transportObj_ok, extract, this, AnyKey.content]
+      | rsaPriv k => exact absurd trivial hv
+      | rsaPub k => exact absurd trivial hv
+      | ecPub k => exact absurd trivial hv
+      | sym a v => exact absurd trivial hv
+      | secret a v => exact absurd trivial hv
 
 /-- 14. the dynamically typed accessors (`CryptoPrivateKey`, `CryptoPublicKey`, `GetResponsePayload.
     PrivateKey/PublicKey`) return the same key as the typed ones, on every key block. -/
@@ -333,33 +344,38 @@ theorem crypto_accessors_agree (C : CryptoOps) (kb : KeyBlockV) :
   ⟨privCrypto_of_privRSA C kb, privCrypto_of_privECDSA C kb, pubCrypto_of_pubRSA C kb,
     pubCrypto_of_pubECDSA C kb⟩
 
-/-- 15. a limit of the transparent RSA format, stated exactly: of a key with more than two primes the
-    builder silently keeps the first two (`key.Primes[0]`, `key.Primes[1]`); what comes back is the key
-    rebuilt from those two. -/
-theorem rsa_multiprime_truncated (C : Crypto) (kf : Nat) (k : C.RsaPriv) (p q : Int) (rest : List Int)
+/-- 15. before d693174, stated exactly: of a key with more than two primes the builder silently kept the
+    first two (`key.Primes[0]`, `key.Primes[1]`); what came back was the key rebuilt from those two. -/
+theorem old_rsa_multiprime_truncated (C : Crypto) (kf : Nat) (k : C.RsaPriv) (p q : Int) (rest : List Int)
     (hp : (C.rsaPrivParts k).primes = p :: q :: rest) (hlen : bitLen (C.rsaPrivParts k).n ≤ maxInt32)
     (hf : rsaPrivFormat kf = kfTransparent) :
-    ∃ o, registerRsaPriv C.toCryptoOps kf k = .ok o ∧
+    ∃ o, registerRsaPrivOld C.toCryptoOps kf k = .ok o ∧
       getRsaPrivateKey C.toCryptoOps (respOf o) =
         .ok (C.rsaPrivBuild { C.rsaPrivParts k with primes := [p, q] }) :=
   rsaPriv_transparent_truncates C kf k p q rest hp hlen hf
 
+/-- 15a. and a key with fewer than two primes made the old builder panic on the index. -/
+theorem old_register_can_panic (C : CryptoOps) (kf : Nat) (k : C.RsaPriv)
+    (hlen : bitLen (C.rsaPrivParts k).n ≤ maxInt32) (hf : rsaPrivFormat kf = kfTransparent)
+    (hp : (C.rsaPrivParts k).primes.length < 2) : ∃ m, registerRsaPrivOld C kf k = .panic m :=
+  registerRsaPrivOld_panics C kf k hlen hf hp
+
 /-! ## 5. Non-vacuity: the laws of `Crypto` are satisfiable and the hypotheses of `key_roundtrip` hold -/
 
-/-- the toy standard library satisfies every law; every toy RSA key is valid and accepted by the builders
-    (moduli below 2^(2^31)), so `key_roundtrip` applies to all of them. -/
+/-- the toy standard library satisfies every law; every toy RSA key is accepted by the builders (moduli
+    below 2^(2^31)), so `key_roundtrip` applies to all of them. -/
 example (kf : Nat) (ver : Nat × Nat) (enc : Enc) (k : Toy.RsaPriv) (h : bitLen k.n ≤ maxInt32) :
     roundtrip Toy.crypto.toCryptoOps kf ver enc (.rsaPriv k) = .ok (.rsaPriv k) := by
-  have hv : Valid (C := Toy.crypto.toCryptoOps) (.rsaPriv k) := ⟨k.p, k.q, rfl⟩
   have hlen : ¬ bitLen (Toy.crypto.toCryptoOps.rsaPrivParts k).n > maxInt32 := by
     show ¬ bitLen (k.n : Int) > maxInt32
     omega
   have hm : Toy.crypto.toCryptoOps.marshalPKCS8 (.rsa k) = .ok (3 :: Toy.serRsaPriv k) := rfl
+  have hpr : (Toy.crypto.toCryptoOps.rsaPrivParts k).primes = [(k.p : Int), (k.q : Int)] := rfl
   cases hr : register Toy.crypto.toCryptoOps kf ver (.rsaPriv k) with
-  | ok o => exact key_roundtrip Toy.crypto kf ver enc (.rsaPriv k) hv o hr
+  | ok o => exact key_roundtrip Toy.crypto kf ver enc (.rsaPriv k) trivial o hr
   | err e =>
     exfalso
-    simp only [register, registerRsaPriv, hlen, if_false, hm] at hr
+    simp only [register, registerRsaPriv, hlen, if_false, hm, hpr] at hr
     split at hr
     · cases hr
     · split at hr
@@ -367,7 +383,7 @@ example (kf : Nat) (ver : Nat × Nat) (enc : Enc) (k : Toy.RsaPriv) (h : bitLen 
       · split at hr <;> cases hr
   | panic m =>
     exfalso
-    simp only [register, registerRsaPriv, hlen, if_false, hm] at hr
+    simp only [register, registerRsaPriv, hlen, if_false, hm, hpr] at hr
     split at hr
     · cases hr
     · split at hr
@@ -380,7 +396,12 @@ example (kf : Nat) (ver : Nat × Nat) (enc : Enc) (k : Toy.RsaPriv) (h : bitLen 
     in the transparent format below and above 1.3, an EC public key through XML. -/
 example : roundtrip Toy.crypto.toCryptoOps kfTransparent (1, 4) .json (.rsaPriv { n := 35, d := 5, p := 5, q := 7 })
     = .ok (.rsaPriv { n := 35, d := 5, p := 5, q := 7 }) :=
-  key_roundtrip Toy.crypto _ _ _ _ ⟨5, 7, rfl⟩ _ rfl
+  key_roundtrip Toy.crypto _ _ _ _ trivial _ rfl
+
+/-- a valid EC private key (scalar 9 on P-256) in the transparent format, through binary. -/
+example : roundtrip Toy.crypto.toCryptoOps kfTransparent (1, 3) .ttlv (.ecPriv { crv := 1, d := 9 })
+    = .ok (.ecPriv { crv := 1, d := 9 }) :=
+  key_roundtrip Toy.crypto _ _ _ _ (show (0 : Int) < 9 ∧ (9 : Int) < Toy.curveOrder 7 by decide) _ rfl
 
 example : ∃ t, register Toy.ops kfTransparent (1, 2) (.ecPriv { crv := 1, d := 9 }) =
     .ok (.privateKey (plainKB fTransparentECDSAPrivateKey 0 algECDSA 256 { ecdsaPriv := some t })) := ⟨_, rfl⟩
